@@ -64,6 +64,12 @@ M = [
  ("C17-astensor-rewraps", "C17", "src/mygrad/tensor_base.py",
   "    if isinstance(arr_like, Tensor) and copy is False:\n        if (constant is None or arr_like.constant is constant) and (", "    if isinstance(arr_like, Tensor) and copy is False and arr_like.creator is None:\n        if (constant is None or arr_like.constant is constant) and (",
   "astensor(t) returns a new tensor (without graph) when t has a creator"),
+ ("C05-int-index-width-fix-reverted", "C05", "src/mygrad/_tensor_core_ops/indexing.py",
+  "np.issubdtype(np.asarray(ind).dtype, np.integer) and np.asarray(ind).ndim", "np.issubdtype(np.asarray(ind).dtype, np.int_) and np.asarray(ind).ndim",
+  "repeated int32/int16/uint8 index arrays are not resolved to the last write (fix 11 reverted)"),
+ ("C05-index-tensor-fix-reverted", "C05", "src/mygrad/_tensor_core_ops/indexing.py",
+  "    return tuple(np.array(ind.data) if isinstance(ind, Tensor) else ind for ind in index)", "    return index",
+  "the ops keep the caller's index Tensor again (fix 12 reverted): later in-place updates of the index re-route the gradient"),
  ("C18-save-private-grad", "C18", "src/mygrad/_io.py",
   "    if tensor.grad is not None:\n        np.savez(file, data=tensor.data, grad=tensor.grad)", "    if tensor._grad is not None:\n        np.savez(file, data=tensor.data, grad=tensor._grad)",
   "view gradients are not saved (or a view's private contribution is saved instead)"),
@@ -72,6 +78,10 @@ M = [
 def main():
     out = "/verif/mutants"
     meta = {}
+    try:
+        old_meta = json.load(open(os.path.join(out, "meta.json")))
+    except Exception:
+        old_meta = {}
     for mid, prop, f, old, new, note in M:
         d = tempfile.mkdtemp(prefix="mkmut-")
         try:
@@ -85,6 +95,8 @@ def main():
             r = subprocess.run(["diff", "-u", os.path.join("a", f), os.path.join("b", f)], cwd=d, capture_output=True, text=True)
             open(os.path.join(out, mid + ".patch"), "w").write(r.stdout)
             meta[mid] = {"property": prop, "note": note, "file": f}
+            for k, v in old_meta.get(mid, {}).items():
+                meta[mid].setdefault(k, v)  # hand-written fields (expect_detect, checks) survive
         finally:
             shutil.rmtree(d)
     json.dump(meta, open(os.path.join(out, "meta.json"), "w"), indent=1)
